@@ -123,7 +123,7 @@ fn tmp_dir() -> PathBuf {
 }
 
 fn hang_secs() -> u64 {
-    env_u64("VERIF_HANG_SECS").unwrap_or(30)
+    env_u64("VERIF_HANG_SECS").unwrap_or(240)
 }
 
 fn env_u64(k: &str) -> Option<u64> {
